@@ -10,7 +10,6 @@ import (
 	"errors"
 	"net"
 	"net/netip"
-	"os"
 	"sync"
 	"time"
 
@@ -217,7 +216,7 @@ func (s *bwSource) Read(buf []byte) (int, error) {
 					noteRunaway("more than 200000 reads in a row after the read deadline had passed")
 					return 0, errRunaway
 				}
-				return 0, os.ErrDeadlineExceeded
+				return 0, errWireDeadline()
 			}
 			s.mu.Lock()
 			s.idleReads = 0
